@@ -38,6 +38,8 @@ def systematic():
             "origin": "same-profile-saved-again-after-a-delete"}]
     out.append({"steps": [{"op": "save", "user": "alice"}, {"op": "save_parallel", "user": "bob"}, {"op": "save_parallel", "user": "alice"}, {"op": "sync", "k": 0},
                           {"op": "save_parallel", "user": "carol"}, {"op": "sync", "k": 0}], "origin": "several-users-saved-at-once"})
+    out.append({"steps": pre + [{"op": "sync", "k": 0}, {"op": "save", "user": "alice"}, {"op": "sync_slowprimary", "user": "alice"}, {"op": "sync", "k": 0}],
+                "origin": "primary-turns-slow-during-a-synchronisation"})
     for k in range(0, 24):
         out.append({"steps": pre + [{"op": "sync", "k": k}, {"op": "sync", "k": 0}], "origin": "fault-at-%d" % k})
     # ... and at every operation on the primary: statements and single row fetches (a source connection that dies in the
